@@ -252,6 +252,25 @@ fn check_steady(w: &World, st: &NetState, phase: &str, out: &mut RunOutcome) {
                 }
             }
         }
+        // 5. a port on a failed link hears nothing: it is on a segment of its own, and if its instance
+        // may be master it is that segment's master
+        for &i in &members {
+            if specs[i].slave_only {
+                continue;
+            }
+            for (pi, hp) in w.nodes[i].ports.iter().enumerate() {
+                if let Some(sg) = hp.segment {
+                    if w.segments[sg].cut && hp.state() != PState::Master {
+                        out.violate(
+                            "C01",
+                            "C01.port_on_failed_link_not_master",
+                            format!("phase={phase} state={:?}", hp.state()),
+                            format!("node {i} port {pi} sits on the cut segment {sg} (it hears nothing) but is {:?}", hp.state()),
+                        );
+                    }
+                }
+            }
+        }
         for s in segs {
             let mut masters = 0;
             let mut capable = false;
